@@ -50,6 +50,12 @@ var c04e3Variants = []c04e3Variant{
 	{"blocked-read-vs-resetat", false, []string{"readbig", "resetat"}},
 	{"blocked-read-vs-fin-vs-cancelread", false, []string{"readbig", "fin", "cancelread"}},
 	{"blocked-peek-vs-read-vs-reset", false, []string{"peekbig", "read600", "reset"}},
+	// the frame a blocked reader waits for arrives (200 more bytes, with or without FIN) while
+	// another goroutine cancels reading: the woken reader must look at the cancellation again
+	{"blocked-read-vs-datafin-vs-cancelread", false, []string{"readbig", "datafin", "cancelread"}},
+	{"blocked-read-vs-data-fin-vs-cancelread", false, []string{"readbig", "data", "cancelread"}},
+	{"blocked-read-vs-datafin-vs-reset", false, []string{"readbig", "datafin", "reset1200"}},
+	{"blocked-peek-vs-datafin-vs-cancelread", false, []string{"peekbig", "datafin", "cancelread"}},
 }
 
 type c04e3Replay struct {
@@ -59,13 +65,14 @@ type c04e3Replay struct {
 
 func c04e3Scenario(v c04e3Variant) func() *sched.Scenario {
 	return func() *sched.Scenario {
-		const total = 1000
+		const initial = 1000
+		total := initial // bytes received on the stream (raised by the data / datafin steps)
 		rtt := utils.NewRTTStats()
 		cfc := flowcontrol.NewConnectionFlowController(4000, 4000, func(protocol.ByteCount) bool { return true }, rtt, utils.DefaultLogger)
 		sfc := flowcontrol.NewStreamFlowController(4, cfc, 2000, 2000, 1<<20, rtt, utils.DefaultLogger)
 		snd := &c04Snd{}
 		rs := newReceiveStream(4, snd, sfc)
-		data := make([]byte, total)
+		data := make([]byte, initial)
 		explore.Must(rs.handleStreamFrame(&wire.StreamFrame{StreamID: 4, Data: data, Fin: v.Fin}, monotime.Now()) == nil, "setup frame rejected")
 		var threads []sched.Thread
 		var errs []error
@@ -80,7 +87,18 @@ func c04e3Scenario(v c04e3Variant) func() *sched.Scenario {
 			case "read600":
 				f = func() { rs.Read(make([]byte, 600)) }
 			case "readall":
-				f = func() { io.ReadFull(rs, make([]byte, total)) }
+				f = func() { io.ReadFull(rs, make([]byte, initial)) }
+			case "datafin", "data": // the next 200 bytes arrive
+				fin := name == "datafin"
+				f = func() {
+					total = initial + 200 // model first: the bytes may be consumed before the call returns
+					note(rs.handleStreamFrame(&wire.StreamFrame{StreamID: 4, Offset: initial, Data: make([]byte, 200), Fin: fin}, monotime.Now()))
+				}
+			case "reset1200":
+				f = func() {
+					total = initial + 200 // the final size counts as received for flow control
+					note(rs.handleResetStreamFrame(&wire.ResetStreamFrame{StreamID: 4, ErrorCode: 9, FinalSize: initial + 200}, monotime.Now()))
+				}
 			case "peekbig": // more than has been received: waits for data or for the end of the stream
 				f = func() { rs.Peek(make([]byte, 1500)) }
 			case "readbig":
@@ -89,15 +107,15 @@ func c04e3Scenario(v c04e3Variant) func() *sched.Scenario {
 				f = func() { rs.CancelRead(7) }
 			case "reset":
 				f = func() {
-					note(rs.handleResetStreamFrame(&wire.ResetStreamFrame{StreamID: 4, ErrorCode: 9, FinalSize: total}, monotime.Now()))
+					note(rs.handleResetStreamFrame(&wire.ResetStreamFrame{StreamID: 4, ErrorCode: 9, FinalSize: initial}, monotime.Now()))
 				}
 			case "resetat":
 				f = func() {
-					note(rs.handleResetStreamFrame(&wire.ResetStreamFrame{StreamID: 4, ErrorCode: 9, FinalSize: total, ReliableSize: 400}, monotime.Now()))
+					note(rs.handleResetStreamFrame(&wire.ResetStreamFrame{StreamID: 4, ErrorCode: 9, FinalSize: initial, ReliableSize: 400}, monotime.Now()))
 				}
 			case "fin":
 				f = func() {
-					note(rs.handleStreamFrame(&wire.StreamFrame{StreamID: 4, Offset: total, Fin: true}, monotime.Now()))
+					note(rs.handleStreamFrame(&wire.StreamFrame{StreamID: 4, Offset: initial, Fin: true}, monotime.Now()))
 				}
 			case "update":
 				f = func() {
